@@ -1551,9 +1551,20 @@ impl Translator {
         }
     }
 
-    fn wrapper_footer(&self, st: &mut TranslatorState, nargs: usize, for_function_body: bool) {
+    fn wrapper_footer(
+        &self,
+        st: &mut TranslatorState,
+        mono: &MonomorphEnv,
+        func_node: AstNode,
+        nargs: usize,
+        for_function_body: bool,
+    ) {
         if for_function_body {
-            if nargs == 0 {
+            // whether there is a result to return depends on the return type, not on the arity
+            let Some(SolvedType::Function(_, ret_ty)) = self.get_ty(mono, func_node) else {
+                unreachable!()
+            };
+            if *ret_ty == SolvedType::Void {
                 self.emit(st, Instr::ReturnVoid);
             } else {
                 self.emit(st, Instr::Return(nargs as u32));
@@ -1871,7 +1882,7 @@ impl Translator {
                 self.emit(st, Instr::Panic);
             }
         }
-        self.wrapper_footer(st, nargs, for_function_body);
+        self.wrapper_footer(st, mono, func_node, nargs, for_function_body);
     }
 
     fn emit_foreign(
@@ -1905,7 +1916,14 @@ impl Translator {
         let func_id = offset + self.statics.dylib_to_funcs[&lib_id].get_id(symbol) as usize;
         self.emit(st, Instr::CallForeign(func_id as u32));
 
-        self.wrapper_footer(st, nargs, for_function_body);
+        let func_node = func_decl.name.node();
+        self.wrapper_footer(
+            st,
+            &MonomorphEnv::empty(),
+            func_node,
+            nargs,
+            for_function_body,
+        );
     }
 
     fn emit_host(
@@ -1921,7 +1939,14 @@ impl Translator {
         let idx = self.statics.host_funcs.get_id(func_decl) as u16;
         self.emit(st, Instr::HostFunc(idx));
 
-        self.wrapper_footer(st, nargs, for_function_body);
+        let func_node = func_decl.name.node();
+        self.wrapper_footer(
+            st,
+            &MonomorphEnv::empty(),
+            func_node,
+            nargs,
+            for_function_body,
+        );
     }
 
     // emit items for checking if a pattern matches the TOS, replacing it with a boolean
